@@ -45,7 +45,9 @@ def main():
         if os.path.exists(demo):
             rc, txt = sh("/venv/bin/python %s" % demo, cwd=wt, env=env, timeout=600)
             out['demo_without'] = rc
-        rc, txt = sh("git apply %s" % os.path.join(d, 'patch.diff'), cwd=wt)
+        rc, txt = sh("git apply %s || git apply -3 %s" % (os.path.join(d, 'patch.diff'),
+                                                           os.path.join(d, 'patch.diff')),
+                     cwd=wt)
         out['applies'] = (rc == 0)
         if rc != 0:
             out['apply_error'] = txt[-500:]
